@@ -64,6 +64,13 @@ def gen_ops(tier, rng):
     for (n, gmp) in [(4, 1), (4, 4), (8, 16)]:
         ops.append((f"concstreamf 4 2 65536 200000 {n} {gmp} {6 if tier == 'quick' else 40}", {"cat": "concstream-fault", "n": n}))
         ops.append((f"concstreamf 3 2 256 3000 {n} {gmp} {10 if tier == 'quick' else 60}", {"cat": "concstream-fault", "n": n}))
+    # n goroutines released together on ONE fresh erasure pattern per round (all miss and insert the same key), then a
+    # sequential call with another fresh pattern (needs the exclusive lock); under the watchdog
+    for (fam, opts, d, p, n, gmp) in [("default", "-", 48, 16, 8, 8), ("default", "-", 10, 4, 8, 1), ("cauchy", "-", 20, 10, 16, 16),
+                                      ("default", "-", 5, 3, 4, 4), ("leo8", "-", 20, 12, 8, 8), ("leo16", "-", 8, 8, 8, 4)]:
+        for rep in range(1 if tier == "quick" else 5):
+            ops.append((f"guard concsame {fam} {opts} {d} {p} {gmp} {n} {24 if tier == 'quick' else 60} {rng.randrange(1, 1<<30)}",
+                        {"cat": "conc-same-pattern", "n": n}))
     return ops
 
 
